@@ -396,7 +396,9 @@ impl ContextStatistics {
         }
         let last_read = self.last_read.load(Ordering::Relaxed);
         let now = SystemTime::now().unix_timestamp();
-        now - last_read > timeout.as_millis() as u64
+        // the wall clock can step backwards (now < last_read): that is "not idle", not an underflow;
+        // compare in u128 so that a very long period is not truncated to u64 milliseconds
+        u128::from(now.saturating_sub(last_read)) > timeout.as_millis()
     }
 }
 
